@@ -6,8 +6,8 @@
    from the source on every run: the methods the wrappers define, and the steps of every shipped
    overlay class's unload(). *)
 From Coq Require Import ZArith List Bool String.
-From IPV8V Require Import lib.PyErr lib.Bytes model.M11_listeners model.M11_tasks model.M11_lifecycle
-  gen.G11_api gen.G11_unload proofs.P11_listeners proofs.P11_tasks proofs.P11_lifecycle proofs.P11_shipped.
+From IPV8V Require Import lib.PyErr lib.Bytes model.M11_listeners model.M11_tasks model.M11_lifecycle model.M11_service
+  gen.G11_api gen.G11_unload proofs.P11_listeners proofs.P11_tasks proofs.P11_lifecycle proofs.P11_service proofs.P11_shipped.
 Import ListNotations.
 Open Scope Z_scope.
 
@@ -159,7 +159,49 @@ Theorem crypto_listener_removed : forall c n l later o,
 Proof. exact crypto_listener_removed_l. Qed.
 Print Assumptions crypto_listener_removed.
 
+(* ---------------------------------------------------------------- (iv) the IPv8 service object *)
+
+(* From any state of the service: after unload_overlay(x) (steps regenerated from the source), in
+   every later history that does not add a strategy for x again, the ticker never calls take_step on a
+   strategy of x, no strategy of x is in the list, and x is not listed as an overlay. *)
+Theorem unloaded_overlay_not_stepped : forall s x ops,
+  Forall (fun o => adds x o = false) ops ->
+  let s1 := fst (sop_apply service_unload_steps s (SUnloadOverlay x)) in
+  Forall (fun e => snd e <> x) (snd (srun service_unload_steps s1 ops))
+  /\ (forall e, In e (v_strategies (fst (srun service_unload_steps s1 ops))) -> snd e <> x)
+  /\ ~ In x (v_overlays s1).
+Proof. exact shipped_unloaded_overlay_not_stepped_l. Qed.
+Print Assumptions unloaded_overlay_not_stepped.
+
+(* The same for any unload_overlay body that rebuilds both lists and calls unload(). *)
+Theorem unloaded_overlay_not_stepped_any : forall steps s x ops,
+  complete_service_unload steps = true ->
+  Forall (fun o => adds x o = false) ops ->
+  let s1 := fst (sop_apply steps s (SUnloadOverlay x)) in
+  Forall (fun e => snd e <> x) (snd (srun steps s1 ops))
+  /\ (forall e, In e (v_strategies (fst (srun steps s1 ops))) -> snd e <> x).
+Proof. exact unloaded_overlay_not_stepped_l. Qed.
+Print Assumptions unloaded_overlay_not_stepped_any.
+
+(* Unloading one overlay leaves the strategies of the others scheduled. *)
+Theorem unload_keeps_other_strategies : forall steps s x e,
+  snd e <> x -> In e (v_strategies s) -> In e (v_strategies (fst (sop_apply steps s (SUnloadOverlay x)))).
+Proof. exact unload_keeps_others_l. Qed.
+Print Assumptions unload_keeps_other_strategies.
+
 (* ---------------------------------------------------------------- non-vacuity *)
+
+(* service: strategies of overlay 1 are stepped before and never after unload_overlay(1), those of
+   overlay 2 keep running; removing entries from the list while iterating over it (instead of
+   rebuilding it) would leave every second strategy of the unloaded overlay scheduled *)
+Example c11_nonvacuous_service :
+  snd (srun service_unload_steps init_svc
+            [SAdd 1 10; SAdd 1 11; SAdd 1 12; SAdd 2 20; STick [10; 11; 12; 20]; SUnloadOverlay 1;
+             STick [10; 11; 12; 20]; SStop; STick [20]])
+  = [(10, 1); (11, 1); (12, 1); (20, 2); (20, 2)]
+  /\ remove_while_iterating (fun e : Z * Z => snd e =? 1) [(10, 1); (11, 1); (12, 1); (20, 2)] = [(11, 1); (20, 2)].
+Proof. vm_compute. split; reflexivity. Qed.
+
 
 (* listeners: called while registered, silent after removal; behind a wrapper that does not forward
    remove_listener (TunnelEndpoint as it was) the listener would still be called *)
